@@ -1,4 +1,5 @@
 import CifModel.Model.Walk
+import CifModel.Model.ParseCB
 /-
   CifModel.Spec.Traversal (part 1, C14) — what the property demands of a traversal, written from the property text and
   the handler documentation of cif.h, not from the five C functions:
@@ -114,3 +115,93 @@ mutual
 end
 
 end CifModel.Spec.Traversal
+
+/-
+  Part 2 (C15) — abstract documents: what a well-formed CIF text denotes and which callbacks, in which order, an
+  undisturbed parse of it owes the application.  Written from the CIF grammar / cif.h, not from parser.c.
+-/
+namespace CifModel.Spec.Doc
+open CifModel.ParseCB
+
+/-- an element of a container body, in document order -/
+inductive Elem where
+  | item (name : Str) (v : V)
+  | loop (names : List Str) (packets : List (List V))
+  | frame (code : Str) (body : List Elem)
+deriving Inhabited
+
+structure Block where
+  code : Str
+  body : List Elem
+deriving Inhabited
+
+abbrev Doc := List Block
+
+-- value tokens of a value (lists and tables bracketed, scalars as one decoded token), layout-free
+mutual
+  def valueToks : V → List Tok
+    | .lst vs => { ty := .olist, pre := [], text := [], v := .unk } :: (valuesToks vs ++ [{ ty := .clist, pre := [], text := [], v := .unk }])
+    | .tbl es => { ty := .otable, pre := [], text := [], v := .unk } :: (entriesToks es ++ [{ ty := .ctable, pre := [], text := [], v := .unk }])
+    | .chr true t => [{ ty := .qvalue, pre := [], text := [], v := .chr true t }]
+    | v => [{ ty := .value, pre := [], text := [], v := v }]
+  def valuesToks : List V → List Tok
+    | [] => []
+    | v :: vs => valueToks v ++ valuesToks vs
+  def entriesToks : List (Str × Str × V) → List Tok
+    | [] => []
+    | (_, k, v) :: es => { ty := .key, pre := [], text := k, v := .unk } :: (valueToks v ++ entriesToks es)
+end
+
+mutual
+  def elemToks : Elem → List Tok
+    | .item n v => { ty := .name, pre := [], text := n, v := .unk } :: valueToks v
+    | .loop ns pks =>
+      { ty := .loopKw, pre := [], text := [], v := .unk }
+        :: (ns.map (fun n => { ty := .name, pre := [], text := n, v := .unk }) ++ (pks.map valuesToks).flatten)
+    | .frame c body =>
+      { ty := .frameHead, pre := [], text := c, v := .unk } :: (elemsToks body ++ [{ ty := .frameTerm, pre := [], text := [], v := .unk }])
+  def elemsToks : List Elem → List Tok
+    | [] => []
+    | e :: es => elemToks e ++ elemsToks es
+end
+
+/-- the token sequence of a document (without layout) -/
+def tokensOf (d : Doc) : List Tok :=
+  (d.map (fun b => { ty := .blockHead, pre := [], text := b.code, v := .unk } :: elemsToks b.body)).flatten
+    ++ [{ ty := .end_, pre := [], text := [], v := .unk }]
+
+-- the handler and data-name / keyword callbacks an undisturbed storing parse owes, in document order
+mutual
+  def elemEvents (storing : Bool) : Elem → List Ev
+    | .item n v => [.dataname n, .item n v]
+    | .loop ns pks =>
+      .keyword [] :: (ns.map .dataname ++ (.loopStart ns ::
+        ((pks.map (fun p => .pktStart :: ((List.zip ns p).map (fun x => Ev.item x.1 x.2) ++ [.pktEnd (List.zip ns p)]))).flatten
+          ++ [.loopEnd (if storing then some ns else none)])))
+    | .frame c body =>
+      .frameStart (if storing then some c else none) :: (elemsEvents storing body ++ [.frameEnd (if storing then some c else none)])
+  def elemsEvents (storing : Bool) : List Elem → List Ev
+    | [] => []
+    | e :: es => elemEvents storing e ++ elemsEvents storing es
+end
+
+def docEvents (storing : Bool) (d : Doc) : List Ev :=
+  .cifStart storing :: ((d.map (fun b => .blockStart (if storing then some b.code else none)
+      :: (elemsEvents storing b.body ++ [.blockEnd (if storing then some b.code else none)]))).flatten ++ [.cifEnd storing])
+
+-- what the document denotes in the data model: scalars in the scalar loop (category ""), loops without category
+mutual
+  def denoteElem : Elem → Content → Content
+    | .item n v, c => c.setScalar n v
+    | .loop ns pks, c => c.addLoop { category := none, names := ns, packets := pks }
+    | .frame code body, c =>
+      c.addFrame (.mk code (denoteBody body .empty).frames (denoteBody body .empty).loops)
+  def denoteBody : List Elem → Content → Content
+    | [], c => c
+    | e :: es, c => denoteBody es (denoteElem e c)
+end
+
+def denote (d : Doc) : Cif :=
+  d.map (fun b => let c := denoteBody b.body .empty; Container.mk b.code c.frames c.loops)
+
+end CifModel.Spec.Doc
